@@ -139,7 +139,8 @@ def c03(hist):
     if run.outcome == 'exc' and isinstance(run.value, Exception) and \
             not isinstance(run.value, (TimeoutError, asyncio.CancelledError)) \
             and not any(run.value is o.get('exc')
-                        for o in run.ctx.objs.values()):
+                        for nid, o in run.ctx.objs.items()
+                        if nid in hist.nodes and not hist.nodes[nid].is_sched):
         win = any(n['window'] for n, _, _ in S.walk(hist.top) if S.is_sched(n))
         out.append(Violation(
             'C03', 'run-dies-with-internal-error',
